@@ -137,6 +137,9 @@ pub struct Ctx {
     pub start: Instant,
     pub deadline: Instant,
     pub cap_hit: AtomicBool,
+    /// set once the first sample has been asked for (the first eligible case is always kept, so that the
+    /// evidence never has an empty sample list whatever the seed)
+    pub sample_given: AtomicBool,
     pub replay_mode: bool,
     pub total: Mutex<Local>,
     pub notes: Mutex<BTreeMap<String, Value>>,
@@ -157,6 +160,7 @@ impl Ctx {
             start,
             deadline: start + Duration::from_secs(cap),
             cap_hit: AtomicBool::new(false),
+            sample_given: AtomicBool::new(false),
             replay_mode: false,
             total: Mutex::new(Local::new()),
             notes: Mutex::new(BTreeMap::new()),
@@ -188,7 +192,8 @@ impl Ctx {
     pub fn want_sample(&self, idx: u64) -> bool {
         let mut s = std::collections::hash_map::DefaultHasher::new();
         (idx, self.seed).hash(&mut s);
-        s.finish() % 4099 == 0 || idx == 0
+        let first = !self.sample_given.swap(true, std::sync::atomic::Ordering::Relaxed);
+        first || s.finish() % 4099 == 0 || idx == 0
     }
 
     pub fn absorb(&self, l: Local) {
